@@ -340,7 +340,9 @@ static void run_C08sys(const Args &a, long cs) {
 	Rng r(a.seed, "C08sys", cs);
 	Spec s = sized_spec(r, (int)cs);
 	Table T; if (!load(T, s)) { viol("C08:load:well-formed-table-rejected", s.full_json()); return; }
-	std::string base = g_tmp + "/sys." + std::to_string(getpid()), in = base + ".in.fits", outp = base + ".out.fits", log = base + ".strace";
+	// (one table in four is written to a name ending in .gz: cfitsio then keeps the image in memory and writes the compressed stream while closing the file)
+	bool gz = cs % 4 == 3; if (gz) count("syscall-level:tables-written-compressed(.gz)");
+	std::string base = g_tmp + "/sys." + std::to_string(getpid()), in = base + ".in.fits", outp = base + (gz ? ".out.fits.gz" : ".out.fits"), log = base + ".strace";
 	{ Bytes b = mkfits(s); bool ok = write_file(in, (const unsigned char *)b.p, b.n); free(b.p); if (!ok) { note("syscall-level:could-not-write-input"); return; } }
 	const char *api = r.coin(0.25) ? "c" : "cpp";
 	unlink(outp.c_str());
@@ -369,7 +371,7 @@ static void run_C08sys(const Args &a, long cs) {
 	  size_t nw_ = std::min(wq.size(), budget * 6 / 10), no_ = std::min(oq.size(), budget - nw_); nw_ = std::min(wq.size(), budget - no_);
 	  pick.assign(wq.begin(), wq.begin() + nw_); pick.insert(pick.end(), oq.begin(), oq.begin() + no_); }
 	for (size_t q : pick) {
-		const Fault &F = fl[q]; unlink(outp.c_str());
+		Fault F = fl[q]; if (gz) F.label = "(gz)" + F.label; unlink(outp.c_str());
 		std::string ctx = "{\"inject\":" + jstr(F.spec) + ",\"api\":" + jstr(api) + ",\"call_index_on_file\":" + std::to_string(F.op) + ",\"of\":" + std::to_string(B0.ops.size()) + ",\"table\":" + s.brief() + "}";
 		context(ctx); phase("syscall-level: faulted run under strace");
 		SysRun R = sys_run(F.spec, in, outp, log, api);
